@@ -19,6 +19,7 @@ A coefficient list shorter than the number of unknowns stands for zero padding (
 `tail`), consistently in `rowSub`, `subDot` and in the specification's `dot`, so the theorems need
 no well-formedness hypothesis on the rows.
 -/
+set_option linter.unusedSectionVars false
 namespace PyYetiVerif.Freq
 
 section gauss
